@@ -2,6 +2,7 @@ import MimicProofs.Params
 import Mimic.Extracted.Params
 import MimicProofs.ParsersCode
 import MimicProofs.ExecuteCode
+import MimicProofs.HandlersCode
 /-!
 # C06 — Prepared-statement parameters are bound as data, never as SQL
 -/
@@ -161,5 +162,41 @@ theorem code_literal_lexes_back (E : Mimic.Py.Env (List Char)) (T : EscTable) (v
 /-- non-vacuity at code level: the classic injection value through the translated encoder -/
 example : Mimic.Extracted.ExecuteCode.encode_param_as_sql MimicProofs.ParsersCode.asciiEnv (.str "a' OR '1'='1".toList)
     = "'a'' OR ''1''=''1'".toList := by decide +kernel
+
+/-! ### long data in the handlers themselves (`Mimic.Extracted.HandlersCode`) -/
+section handlers
+open Mimic.Extracted.HandlersCode MimicProofs.HandlersCode
+variable {S : Type} [DecidableEq S]
+
+/-- **`Connection.handle_stmt_send_long_data`, translated, is `sendLong`** on the addressed parameter of the addressed
+    statement and the identity on everything else (other parameters, the cursor, the text, other statements, the wire:
+    the command has no response); for an unknown statement id it does nothing at all. -/
+theorem send_long_data_is_code (c : Connection S) (data : Mimic.Py.Bytes) (f : Mimic.Extracted.ParsersCode.ComStmtSendLongData S)
+    (hp : Mimic.Extracted.ParsersCode.parse_com_stmt_send_long_data (S := S) data = some f) :
+    match Mimic.Py.dictGet c.prepared_stmts f.stmt_id with
+    | none => handle_stmt_send_long_data c data = .ok c
+    | some stmt =>
+      ∃ c' stmt', handle_stmt_send_long_data c data = .ok c' ∧ c'.out = c.out ∧
+        (∀ k, k ≠ f.stmt_id → Mimic.Py.dictGet c'.prepared_stmts k = Mimic.Py.dictGet c.prepared_stmts k) ∧
+        Mimic.Py.dictGet c'.prepared_stmts f.stmt_id = some stmt' ∧ stmt'.cursor = stmt.cursor ∧ stmt'.sql = stmt.sql ∧
+        stmt'.num_params = stmt.num_params ∧
+        ∀ pid, bufOf stmt' pid = if pid = f.param_id then sendLong (bufOf stmt pid) f.data else bufOf stmt pid := by
+  have h := handle_stmt_send_long_data_spec c data f hp
+  cases hget : Mimic.Py.dictGet c.prepared_stmts f.stmt_id with
+  | none => simpa [hget] using h
+  | some stmt =>
+    simp only [hget] at h
+    obtain ⟨c', stmt', h1, h2, _, _, h5, h6, h7, h8, h9, _, h11⟩ := h
+    exact ⟨c', stmt', h1, h2, h5, h6, h7, h8, h9, h11⟩
+
+/-- COM_STMT_RESET abandons the long data of the statement (and its cursor), on the translated handler -/
+theorem reset_abandons_long_data_code (c : Connection S) (data : Mimic.Py.Bytes) (f : Mimic.Extracted.ParsersCode.ComStmtReset S)
+    (stmt : PreparedStatement S) (hp : Mimic.Extracted.ParsersCode.parse_com_stmt_reset (S := S) data = some f)
+    (hget : Mimic.Py.dictGet c.prepared_stmts f.stmt_id = some stmt) :
+    ∃ c', handle_stmt_reset c data = .ok c' ∧
+      Mimic.Py.dictGet c'.prepared_stmts f.stmt_id = some { stmt with param_buffers := none, cursor := none } :=
+  handle_stmt_reset_clears_buffers c data f stmt hp hget
+
+end handlers
 
 end MimicProps.C06
